@@ -120,10 +120,25 @@ fn judge_inner(case: &Case, known: &Known, det: &mut Option<Details>) -> Outcome
                 return Outcome::skip(&format!("generic_not_executable: {}", util::reason_class(&m)))
                     .class("generic_not_executable");
             }
-            return Outcome::fail(
+            let mut o = Outcome::fail(
                 "emitted SQL fails on SQLite",
                 json!({"source": src, "sql": sql, "error": m}),
             );
+            // recorded finding C07-sort-column-pruned-before-take, by its shape: the missing column
+            // is a sort key in front of a LIMIT, and what survives the take is grouped / aggregated
+            // without that column
+            if let Some(col) = m.strip_prefix("no such column: ").and_then(|r| r.split(' ').next()) {
+                let col = col.rsplit('.').next().unwrap_or(col);
+                let re = regex::Regex::new(&format!(r"ORDER BY [^()]*\b{}\b[^()]* LIMIT", regex::escape(col))).unwrap();
+                let take_then_group = src.find("take").map(|i| src[i..].contains("group") || src[i..].contains("aggregate")).unwrap_or(false);
+                if re.is_match(&sql) && take_then_group && known.is_open("C07-sort-column-pruned-before-take") {
+                    o.verdict = Verdict::Known(
+                        "C07-sort-column-pruned-before-take".into(),
+                        format!("sort key {col} is not carried to the ORDER BY in front of the LIMIT"),
+                    );
+                }
+            }
+            return o;
         }
     };
     let (ctes, join, group, over) = sql_shape(&sql);
@@ -158,6 +173,16 @@ fn judge_inner(case: &Case, known: &Known, det: &mut Option<Details>) -> Outcome
         *det = Some(Details { src: src.clone(), sql: sql.clone(), reference, res });
         return out;
     }
+    // SQLite's planner has defects of its own (observed with 3.49.1: an outer ORDER BY .. DESC over a
+    // grouped, ordered + limited sub-query is ignored). The result of a statement does not depend
+    // on the planner: if the same statement gives the reference result with the optional
+    // optimisations switched off, the difference is the engine's, and the case is not judged.
+    if let Ok(res2) = exec::run_unoptimized(&case.db, &sql) {
+        let aligned2 = align_by_name(&case.names, &res2.cols, &res2.rows);
+        if compare(&reference, res2.cols.len(), aligned2.as_ref().unwrap_or(&res2.rows)).is_ok() {
+            return Outcome::skip("engine_planner_defect: SQLite answers differently with optimisations off").class("engine_planner_defect");
+        }
+    }
     let (exp_rows, exp_ordered, got_cols, got_rows_s) = detail_vals.unwrap();
     match cmp {
         Ok(()) => out,
@@ -169,7 +194,22 @@ fn judge_inner(case: &Case, known: &Known, det: &mut Option<Details>) -> Outcome
                 Mismatch::Order(_) => "row order differs from the sort in effect",
             };
             let touched = interp.touched.borrow().clone();
-            if touched.divi_small_int && case.target == "sqlite" && known.is_open("C02-sqlite-divi-small-int") {
+            // the same finding when an operand typed float is an integer at run time
+            // (`COALESCE(SUM(x), 0)` of an empty group): every differing cell is 0 in the reference
+            // and -1 / 1 in the result
+            let divi_shape = case.target == "sqlite" && src.contains("//") && sql.contains("ROUND(ABS(") && matches!(m, Mismatch::Rows(_)) && {
+                let mut exp: Vec<&Vec<String>> = exp_rows.iter().collect();
+                let mut got: Vec<&Vec<String>> = got_rows_s.iter().collect();
+                exp.sort();
+                got.sort();
+                let zero = |s: &str| matches!(s, "0" | "0.0" | "-0.0");
+                let one = |s: &str| matches!(s, "1" | "-1" | "1.0" | "-1.0");
+                exp.len() == got.len()
+                    && exp.iter().all(|e| {
+                        got.iter().any(|g| e.len() == g.len() && e.iter().zip(g.iter()).all(|(a, b)| a == b || (zero(a) && one(b)) || (a == "true" && b == "1") || (a == "false" && b == "0")))
+                    })
+            };
+            if (touched.divi_small_int || divi_shape) && case.target == "sqlite" && known.is_open("C02-sqlite-divi-small-int") {
                 out.verdict = Verdict::Known(
                     "C02-sqlite-divi-small-int".into(),
                     "sqlite `//` on integers with |l|<|r|".into(),
@@ -281,6 +321,12 @@ pub fn run(ctx: &Ctx) -> i32 {
     );
     let all_h: Vec<&'static str> = HAZARD_FINDINGS.iter().map(|(h, _)| *h).collect();
     hazard_sweeps(ctx, GenCfg::general(), &all_h, 600, 20_000);
+    // sorted let-tables with several readers (the generator builds them under this hazard): a
+    // larger sweep, sort-biased
+    let mut cfg3 = GenCfg::general();
+    cfg3.bias = crate::model::gen::Bias::Sort;
+    cfg3.hazards = vec!["sorted_let"];
+    ctx.tape_search("hazard/sorted_let+readers", ctx.n(4_000, 100_000), 400, |t| gen_case(t, cfg3.clone()), |c| check_hazard(c, &ctx.known));
     ctx.finish(
         RULE,
         &[
@@ -326,6 +372,7 @@ pub const HAZARD_FINDINGS: &[(&str, &[&str])] = &[
     ("wild_let", &["C07-wildcard-let-derive-name"]),
     ("const_fold", &["C05-same-column-merged", "C02-const-null-fold"]),
     ("dropped_key_join", &["C03-dropped-sort-key-join"]),
+    ("take_distinct", &["C01-take-then-distinct-merged"]),
     ("computed_key_join", &["C16-computed-sort-key-lowered-into-subpipeline"]),
     ("sort_key_rename", &["C12-sort-key-rename-panic", "C07-sort-key-rename-scope"]),
 ];
